@@ -980,7 +980,11 @@ where
         // nobody would wake us later.
         let send_result = match self.writer.cc_upload.try_send(wc) {
           Err(TrySendError::Full(wc)) => {
+            #[cfg(rustdds_verif)]
+            crate::verif::sched::point("AsyncWrite.full.before_store_waker");
             *self.writer.cc_upload_waker.lock().unwrap() = Some(cx.waker().clone());
+            #[cfg(rustdds_verif)]
+            crate::verif::sched::point("AsyncWrite.full.after_store_waker");
             self.writer.cc_upload.try_send(wc)
           }
           other => other,
